@@ -693,6 +693,7 @@ L2Checks(ln, w, regsAfter) ==
                Chk("DRIFT", "l2-tables-rows-freelists", ProjTables(post) = ProjTables(exp)),
                Chk("DRIFT", "l2-filter-cache", ProjCache(post) = ProjCache(exp) /\ post.fidNext = exp.fidNext),
                Chk("DRIFT", "l2-structural-invariants", StructInv(post) /\ CacheInv(post)),
+               Chk("DRIFT", "l2-targets-of-tables-flagged", FlagInv(post)),
                (* iteration orders: the All() query, and every registered filter next to its original *)
                Chk("DRIFT", "l2-query-iteration-order",
                    /\ ln.obs.all = LQueryOrder(post, [k |-> "all", ids |-> <<>>, exc |-> <<>>, tgt |-> Zero, reg |-> -1, subs |-> <<>>], -1)
